@@ -20,10 +20,11 @@ var ErrInjected = errors.New("simio: injected I/O error")
 type Reader struct {
 	C           Chooser
 	Data        []byte
-	MaxChunk    int  // chunk sizes are drawn from 1..MaxChunk (0 = as much as asked)
-	EOFWithData bool // return io.EOF together with the last data
-	ZeroReads   bool // occasionally return (0, nil), at most 3 in a row
-	FailAt      int  // offset at which the reader fails (sticky); <0 = never
+	MaxChunk    int   // chunk sizes are drawn from 1..MaxChunk (0 = as much as asked)
+	Palette     []int // if set, chunk sizes are drawn from this list instead
+	EOFWithData bool  // return io.EOF together with the last data
+	ZeroReads   bool  // occasionally return (0, nil), at most 3 in a row
+	FailAt      int   // offset at which the reader fails (sticky); <0 = never
 	NoClose     bool
 
 	pos       int
@@ -66,7 +67,11 @@ func (r *Reader) Read(p []byte) (int, error) {
 		return 0, io.EOF
 	}
 	n := len(p)
-	if r.MaxChunk > 0 {
+	if len(r.Palette) > 0 {
+		if c := r.Palette[r.C.Choose(len(r.Palette), "chunk")]; c < n {
+			n = c
+		}
+	} else if r.MaxChunk > 0 {
 		if c := 1 + r.C.Choose(r.MaxChunk, "chunk"); c < n {
 			n = c
 		}
